@@ -38,6 +38,25 @@ def server_handler(mode, state):
     codec = codec_for(PV)
 
     def handler(io):
+        if io.index >= 1:
+            # the same object connects again after the scenario: its first
+            # frames must be a fresh handshake and login start, and nothing
+            # handed to the *previous* connection may show up here
+            state['second_stage'] = 'accepted'
+            scripts.read_handshake(io)
+            state['second_stage'] = 'handshake'
+            scripts.login_offline(io, PV, None, codec)
+            state['second_stage'] = 'login'
+            did, dp = codec.encode('play_disconnect', {'reason': '"again"'})
+            io.send_frame(did, dp)
+            io.half_close()
+            later = []
+            for fr in io.drain(8.0):
+                name, vals = codec.decode('play', fr[0], fr[1])
+                later.append(vals.get('message') if name == 'sb_chat'
+                             else '<%s>' % name)
+            state['second_connection'] = later
+            return
         scripts.read_handshake(io)
         io.recv_frame()
         if mode == 'encrypted':
@@ -65,6 +84,89 @@ def server_handler(mode, state):
     return handler
 
 
+def user_ops(conn, log, lock, ops, final, i):
+    """The calls one user thread makes; every call is logged before it is
+    invoked and after it returned or raised, and after each one the thread
+    must no longer own the write lock."""
+    from minecraft.networking.packets import serverbound
+
+    def after(op):
+        if lock.held_by_me():
+            log.emit('lock.leak', op=op, depth=lock.depth)
+    for kind, msg in ops:
+        if kind == 'x':
+            # a forced write that fails half-way (no message set)
+            log.emit('api.call', op='write', msg=msg, force=True, broken=True)
+            try:
+                conn.write_packet(serverbound.play.ChatPacket(), force=True)
+                log.emit('api.ret', op='write', msg=msg)
+            except Exception as e:
+                log.emit('api.raise', op='write', msg=msg, exc=repr(e))
+            after('forced write that raised')
+            continue
+        log.emit('api.call', op='write', msg=msg, force=kind == 'f')
+        try:
+            conn.write_packet(serverbound.play.ChatPacket(message=msg),
+                              force=kind == 'f')
+            log.emit('api.ret', op='write', msg=msg)
+        except Exception as e:
+            log.emit('api.raise', op='write', msg=msg, exc=repr(e))
+        after('write')
+    if final[0] == i:
+        log.emit('api.call', op='disconnect')
+        try:
+            conn.disconnect(immediate=final[1])
+            log.emit('api.ret', op='disconnect')
+        except Exception as e:
+            log.emit('api.raise', op='disconnect', exc=repr(e))
+        after('disconnect')
+
+
+def lock_leaks(run, log, w, engine):
+    leaks = [pl for _s, _r, kind, pl in log.events if kind == 'lock.leak']
+    if leaks:
+        run.violation('lock/held-after-call', 'a thread still owned the write '
+                      'lock after an API call had returned or raised (every '
+                      'other thread is locked out from then on)',
+                      dict(w, engine=engine, after=leaks[0]))
+    return bool(leaks)
+
+
+def reconnect_probe(run, conn, state, server, threads, w, engine):
+    """After an immediate disconnect the same object connects again."""
+    try:
+        conn.connect()
+    except Exception as e:
+        run.violation('reconnect/raised', 'connect() after the scenario '
+                      'raised', dict(w, engine=engine, error=repr(e)))
+        return
+    if not pc.wait_idle(conn, 15.0):
+        run.inconclusive_because('reconnect probe: threads alive')
+        return
+    server.join(10.0)
+    run.count(engine + '.reconnect_probes')
+    frame_errs = [e for e in server.errors if e[1] == 'frame']
+    handed = {m for ops in threads for _k, m in ops}
+    later = state.get('second_connection')
+    if frame_errs or later is None:
+        run.violation('wire/next-connection-malformed', 'the next connection '
+                      'of the same object does not start with a well-formed '
+                      'handshake and login start', dict(
+                          w, engine=engine, error=(frame_errs or [[0, 0, (
+                              'second connection never completed')]])[0][2],
+                          server_errors=[e[1:] for e in server.errors][:3],
+                          connections=len(server.connections),
+                          stage=state.get('second_stage'),
+                          alive=[t.is_alive() for t in server.threads],
+                          threads=pc.dump_threads()[-1200:]))
+    elif [m for m in later if m in handed]:
+        run.violation('wire/stale-packet-on-next-connection', 'a payload '
+                      'handed to the previous connection was sent on the next '
+                      'one (an immediate disconnect sends nothing further)',
+                      dict(w, engine=engine, stale=[m for m in later
+                                                    if m in handed][:3]))
+
+
 def judge(run, log, state, threads, final, server, w, engine):
     """History checker.  threads: list of op lists [('q'|'f', msg)];
     final: (thread index, immediate)."""
@@ -83,7 +185,7 @@ def judge(run, log, state, threads, final, server, w, engine):
     if msgs is None or not state.get('eof'):
         bad('wire/not-closed', 'the socket was not closed after disconnect()')
         return
-    handed = {m for ops in threads for _k, m in ops}
+    handed = {m for ops in threads for k, m in ops if k != 'x'}
     alien = [m for m in msgs if m not in handed]
     if alien:
         bad('wire/alien-frame', 'a frame on the wire is not one of the '
@@ -232,22 +334,7 @@ def baton_run(run, cfg, strategy, label):
             sched.register(names[i])
             sched.step('begin')
             try:
-                for kind, msg in threads[i]:
-                    log.emit('api.call', op='write', msg=msg, force=kind == 'f')
-                    try:
-                        conn.write_packet(serverbound.play.ChatPacket(
-                            message=msg), force=kind == 'f')
-                        log.emit('api.ret', op='write', msg=msg)
-                    except Exception as e:
-                        log.emit('api.raise', op='write', msg=msg,
-                                 exc=repr(e))
-                if final[0] == i:
-                    log.emit('api.call', op='disconnect')
-                    try:
-                        conn.disconnect(immediate=final[1])
-                        log.emit('api.ret', op='disconnect')
-                    except Exception as e:
-                        log.emit('api.raise', op='disconnect', exc=repr(e))
+                user_ops(conn, log, conn._write_lock, threads[i], final, i)
             finally:
                 sched.finish()
         ts = [threading.Thread(target=user, args=(i,), name=names[i],
@@ -256,7 +343,11 @@ def baton_run(run, cfg, strategy, label):
             t.start()
         deadline = time.monotonic() + 20.0
         for t in ts:
-            t.join(max(0.1, deadline - time.monotonic()))
+            while t.is_alive() and time.monotonic() < deadline and not any(
+                    e[2] == 'lock.leak' for e in log.events[-200:]):
+                t.join(0.05)
+        if lock_leaks(run, log, w, 'baton'):
+            return sched, None
         idle = pc.wait_idle(conn, max(0.1, deadline - time.monotonic()))
         if sched.deadlock:
             run.violation('schedule/deadlock', 'no thread is enabled although '
@@ -272,6 +363,9 @@ def baton_run(run, cfg, strategy, label):
             return sched, 'server: %r' % (server.errors[:1],)
         w['decisions'] = list(sched.decisions)
         judge(run, log, state, threads, final, server, w, 'baton')
+        if final[1]:
+            C.select = real_select
+            reconnect_probe(run, conn, state, server, threads, w, 'baton')
         run.count('baton.schedules')
         run.count('baton.decision_points', len(sched.trace))
         return sched, None
@@ -281,10 +375,7 @@ def baton_run(run, cfg, strategy, label):
         C.NetworkingThread.run = orig_run
         server.stop()
         if conn is not None:
-            try:
-                conn.disconnect(immediate=True)
-            except Exception:
-                pass
+            pc.safe_disconnect(conn)
 
 
 def explore(run, cfg, bound, budget, label):
@@ -292,6 +383,7 @@ def explore(run, cfg, bound, budget, label):
     seen = set()
     stack = [({}, 0)]
     n = 0
+    n_viol = len(run.violations)
     while stack and n < budget:
         plan, depth = stack.pop()
         strategy = baton.Preemptions(plan)
@@ -302,6 +394,9 @@ def explore(run, cfg, bound, budget, label):
                 break
             strategy = baton.Preemptions(plan)
         n += 1
+        if len(run.violations) > n_viol:
+            break        # one witness per scenario is enough; later schedules
+            # of a scenario whose lock is stuck only run into the watchdog
         if err is not None or sched is None:
             run.inconclusive_because('baton %s plan %r: %s' % (label, plan,
                                                               err))
@@ -347,6 +442,10 @@ def stress_run(run, rng, cfg, idx):
         conn.vf_log = log
         conn.vf_rng = rng
         conn.vf_send_yield = 0.5
+        # owner-tracking proxy around a real RLock (installed before the first
+        # connect so that every party uses the same lock)
+        lock = baton.LockProxy(baton.NullScheduler())
+        conn._write_lock = lock
         conn.connect()
         if not pc.wait_for(lambda: isinstance(conn.reactor, C.PlayingReactor)
                            and state.get('in_play'), 10.0):
@@ -355,21 +454,7 @@ def stress_run(run, rng, cfg, idx):
 
         def user(i):
             barrier.wait(5.0)
-            for kind, msg in threads[i]:
-                log.emit('api.call', op='write', msg=msg, force=kind == 'f')
-                try:
-                    conn.write_packet(serverbound.play.ChatPacket(message=msg),
-                                      force=kind == 'f')
-                    log.emit('api.ret', op='write', msg=msg)
-                except Exception as e:
-                    log.emit('api.raise', op='write', msg=msg, exc=repr(e))
-            if final[0] == i:
-                log.emit('api.call', op='disconnect')
-                try:
-                    conn.disconnect(immediate=final[1])
-                    log.emit('api.ret', op='disconnect')
-                except Exception as e:
-                    log.emit('api.raise', op='disconnect', exc=repr(e))
+            user_ops(conn, log, lock, threads[i], final, i)
         sys.setswitchinterval(1e-6)
         with LineMonitor(files=['minecraft/networking/connection.py',
                                 'minecraft/networking/packets/packet.py'],
@@ -379,33 +464,38 @@ def stress_run(run, rng, cfg, idx):
                                    daemon=True) for i in range(len(threads))]
             for t in ts:
                 t.start()
+            t_end = time.monotonic() + 30.0
             for t in ts:
-                t.join(30.0)
-            if final[0] is None:
+                while t.is_alive() and time.monotonic() < t_end and not any(
+                        e[2] == 'lock.leak' for e in log.events[-200:]):
+                    t.join(0.05)
+            leaked = any(e[2] == 'lock.leak' for e in log.events)
+            if final[0] is None and not leaked:
                 log.emit('api.call', op='disconnect')
                 conn.disconnect(immediate=final[1])
                 log.emit('api.ret', op='disconnect')
-            idle = pc.wait_idle(conn, 20.0)
+            idle = leaked or pc.wait_idle(conn, 20.0)
             run.count('stress.yields', mon.yields)
             for s in mon.sites:
                 run.seen('stress.sites', '%s:%s:%d' % s)
         sys.setswitchinterval(old_interval)
+        if lock_leaks(run, log, w, 'stress'):
+            return None
         if any(t.is_alive() for t in ts) or not idle:
             return 'watchdog: threads alive ' + pc.dump_threads()[-900:]
         server.join(10.0)
         if [e for e in server.errors if e[1] in ('script', 'timeout')]:
             return 'server: %r' % (server.errors[:1],)
         judge(run, log, state, threads, final, server, w, 'stress')
+        if final[1]:
+            reconnect_probe(run, conn, state, server, threads, w, 'stress')
         run.count('stress.runs')
         return None
     finally:
         sys.setswitchinterval(old_interval)
         server.stop()
         if conn is not None:
-            try:
-                conn.disconnect(immediate=True)
-            except Exception:
-                pass
+            pc.safe_disconnect(conn)
 
 
 def make_threads(rng, n_threads, n_ops, tag):
@@ -413,7 +503,7 @@ def make_threads(rng, n_threads, n_ops, tag):
     for t in range(n_threads):
         ops = []
         for k in range(n_ops):
-            kind = rng.choice(('q', 'q', 'f'))
+            kind = rng.choice(('q', 'q', 'f', 'q', 'q', 'f', 'x'))
             # payload sizes on both sides of the compression threshold
             pad = rng.choice(('', '', 'x' * 40))
             ops.append((kind, '%s.t%d.%d%s' % (tag, t, k, pad)))
